@@ -104,7 +104,18 @@ def c04(tier):
         trusted=["Go race detector builds of go-critic and go-critic-analysis; x/tools analysis driver's -debug=p sequential mode"])
 
 
-CHECKS = {"C04": c04, "C06": c06, "C08": c08, "C14": c14, "C17": c17, "C18": c18, "C15": c15, "C16": c16, "C19": c19}
+def c09(tier):
+    vlib.standard(
+        "C09", tier, "c09", ["Properties_C09.v", "Proofs_Edit.v"],
+        assume=[
+            "STATED LIMIT: 'the substituted program parses and type-checks' is not a theorem (no formal Go grammar/type system is available here); it is decided per diagnostic by go/parser and go/types in the oracle",
+            "commentFormatting is modelled for ASCII case folding and ASCII white space",
+            "quoted replacement code is recognised by per-checker message patterns of the hand-written checkers named in the property",
+        ],
+        trusted=["translator vh gen suggest (Suggest templates and wildcard runs of rulesdata.PrecompiledRules)", "go/parser, go/types (source importer), astutil.PathEnclosingInterval as references"])
+
+
+CHECKS = {"C04": c04, "C06": c06, "C08": c08, "C09": c09, "C14": c14, "C17": c17, "C18": c18, "C15": c15, "C16": c16, "C19": c19}
 
 
 def run(prop, tier):
